@@ -447,6 +447,12 @@ func (g *G) encapsVar(depth int) *Node {
 		case 2:
 			dim = g.varNamed("$" + g.ident())
 		default:
+			if g.R.Chance(1, 3) {
+				// a negative offset that is not a decimal integer is a string key: "$a[-0x1A]"
+				d := g.R.Pick("0x1A", "0b11", "99999999999999999999")
+				dim = &Node{Kind: "ScalarString", Val: "-" + d, HasVal: true, Parts: []interface{}{tn("-"), tn(d)}, Prec: 100}
+				break
+			}
 			num := g.leaf("ScalarLnumber", strconv.Itoa(1+g.R.Intn(9)))
 			num.Parts = []interface{}{tn(num.Val)}
 			dim = &Node{Kind: "ExprUnaryMinus", Kids: []Kid{one("Expr", num)}, Parts: parts(tn("-"), num)}
